@@ -878,11 +878,35 @@ static void* reb_simulation_integrate_raw(void* args){
             usleep(r->usleep);
         }
     }
+#ifdef SERVER
+    if (r->server_data){
+        // The server must not serialize the simulation while it is being synchronized.
+        while (r->server_data->need_copy == 1){
+            usleep(10);
+        }
+#ifdef _WIN32
+        WaitForSingleObject(r->server_data->mutex, INFINITE);
+#else // _WIN32
+        pthread_mutex_lock(&(r->server_data->mutex)); 
+#endif // _WIN32
+        r->server_data->mutex_locked_by_integrate = 1;
+    }
+#endif //SERVER
     reb_simulation_synchronize(r);
     if(r->exact_finish_time==1){ // if finish_time = 1, r->dt could have been shrunk, so set to the last full timestep
         r->dt = last_full_dt; 
     }
     if (r->simulationarchive_filename){ reb_simulationarchive_heartbeat(r);}
+#ifdef SERVER
+    if (r->server_data){
+#ifdef _WIN32
+        ReleaseMutex(r->server_data->mutex);
+#else // _WIN32
+        pthread_mutex_unlock(&(r->server_data->mutex));
+#endif // _WIN32
+        r->server_data->mutex_locked_by_integrate = 0;
+    }
+#endif //SERVER
 
     return NULL;
 }
